@@ -12,12 +12,16 @@ CONSTANTS Mode,      \* "ref" | "c23" | "c24"
           RefN       \* size of the universe prefix the monitor is run on in mode "ref"
 
 Singles == {<<"a">>, <<"*">>, <<".c">>, <<".d">>, <<"#i">>, <<"#j">>, <<"[x]">>, <<"[x=y]">>, <<":hover">>, <<"::before">>,
-            <<":is(", ".c", ")">>, <<":not(", ".c", ")">>, <<":is(", ".c", ".d", ")">>, <<":not(", ".c", ",", ".d", ")">>}
+            <<":is(", ".c", ")">>, <<":not(", ".c", ")">>, <<":is(", ".c", ".d", ")">>, <<":not(", ".c", ",", ".d", ")">>,
+            (* selector pseudo-classes beside what their arguments match: `:is(.c)` / `.c` / `.c:is(.d)`, also below :not() *)
+            <<":is(", ".d", ")">>, <<":is(", ".c", ",", ".d", ")">>, <<":where(", ".c", ")">>,
+            <<":not(", ".c", ":is(", ".d", ")", ")">>, <<":not(", ":is(", ".c", ")", ")">>}
 (* in the storage order of the pinned tree (element, id, classes, attributes, pseudos), so that the open
    finding compound_reordered of C19 does not show in these laws *)
 Pairs   == {<<"a", ".c">>, <<"a", "#i">>, <<".c", ".d">>, <<".c", ":hover">>, <<"a", "::before">>, <<".c", "[x]">>,
             <<"a", ":not(", ".c", ")">>, <<"#i", ".c">>, <<".c", "::before">>, <<"a", ":is(", ".c", ")">>,
-            <<".d", ":not(", ".c", ")">>, <<"a", "[x=y]">>}
+            <<".d", ":not(", ".c", ")">>, <<"a", "[x=y]">>,
+            <<".c", ":is(", ".d", ")">>, <<".c", ":not(", ".d", ")">>, <<".c", ":where(", ".d", ")">>, <<".c", ".d", ":is(", ".d", ")">>}
 Compounds == Singles \cup Pairs
 
 Core == IF Tier = "small" THEN {<<"a">>, <<"b">>, <<".c">>}
@@ -28,7 +32,9 @@ Combs == {"sp", ">", "+", "~"}
 Extras == {<<"a", "sp", "b", "sp", ".c">>, <<"a", ">", "b", "sp", ".c">>, <<"a", "sp", "b", ">", ".c">>,
            <<"a", "+", "b", "~", ".c">>, <<"a", "~", "b", "+", ".c">>, <<"a", ">", "b", "+", ".c">>,
            <<"a", "+", "b", ">", ".c">>, <<"a", "~", "b", "sp", ".c">>, <<".c", "sp", "a", "::before">>,
-           <<"a", ">", ".c", "::before">>, <<"*", "sp", ".c">>, <<"*", ">", "a">>}
+           <<"a", ">", ".c", "::before">>, <<"*", "sp", ".c">>, <<"*", ">", "a">>,
+           <<"a", "sp", ":is(", ".c", ")">>, <<"a", "sp", ".c", ":is(", ".d", ")">>, <<"a", "sp", ":is(", ".c", ")", "sp", "b">>,
+           <<"a", "sp", ".c", ":is(", ".d", ")", "sp", "b">>, <<"a", "sp", ".c", "sp", "b">>}
           \cup (IF Tier # "thorough" THEN {} ELSE
                {<<"a", ">", "b", ">", ".c">>, <<"a", "~", "b", "~", ".c">>, <<"a", "+", "b", "+", ".c">>, <<"a", "sp", "b", "~", ".c">>,
                 <<"a", "sp", "b", "sp", ".c", "sp", ".d">>, <<"a", ">", "b", "~", ".c", "+", ".d">>})
@@ -57,7 +63,7 @@ Idx(toks) == IF toks \in Universe THEN CHOOSE i \in 1..N : USeq[i] = toks ELSE 0
 
 (* Derive, one step, from every member of a universe element *)
 Adds     == {<<"a">>, <<"*">>, <<".c">>, <<".d">>, <<".e">>, <<"#i">>, <<"[x]">>, <<"[x=y]">>, <<":hover">>, <<":focus">>,
-             <<":is(", ".c", ")">>, <<":not(", ".c", ")">>, <<":not(", ".d", ")">>}
+             <<":is(", ".c", ")">>, <<":is(", ".d", ")">>, <<":where(", ".d", ")">>, <<":not(", ".c", ")">>, <<":not(", ".d", ")">>}
 Prefixes == {<<"e">>, <<".e">>, <<"a", ".c">>, <<"*">>, <<":not(", ".c", ")">>, <<"e", "sp", "f">>, <<"e", ">", "f">>, <<"e", "+", "f">>, <<"e", "~", "f">>}
 Infixes  == {<<"e">>, <<"e", "sp", "b">>, <<"b", ">", "e">>}
 DeriveOf(i) == UNION {DeriveComplexSet(P[i][m], Adds, Prefixes, Infixes) : m \in 1..Len(P[i])}
